@@ -9,10 +9,13 @@
      jeq             = equality of response data up to the order of object keys
 
    Fragment: Exec/Spec.v's (synchronous default-like resolvers over a data graph) plus @defer on inline
-   fragments and fragment spreads (labels, `if` by literal or variable, nested, overlapping).  NOT covered,
-   hence the suffix _partial on the reassembly theorems: @stream; completion orders (the payloads are merged
-   in the model's canonical order: every execution group after the group that created its position);
-   responses with field errors (only the statements about disabled/absent @defer cover them).
+   fragments and fragment spreads (labels, `if` by literal or variable, nested, overlapping).  Orders: the
+   payloads are merged in the model's order (every execution group after the group that created its position)
+   AND in every permutation of it on which the merge oracle succeeds, i.e. every arrival order in which each
+   payload's target position exists when it is applied.  NOT covered, hence the suffix _partial on the
+   reassembly theorems: @stream; asynchronous resolvers and early execution (the set of execution group
+   values is computed by the synchronous model); responses with field errors (only the statements about
+   disabled/absent @defer cover them).
    [rev = false]: no collection visited a named fragment as deferred and later again as non-deferred (the only
    case in which collect_fields deliberately collects a fragment twice). *)
 From GV Require Import Base.Prelude Exec.Value Exec.Schema Exec.Spec Incr.DeferExec Incr.DeferExecProps.
@@ -21,13 +24,15 @@ From Coq Require Import Permutation.
 
 (* MAIN: if the base executor's run is error-free then so is the incremental run - initial response and
    every execution group value - and merging the payloads into the initial data with the merge oracle
-   yields the base executor's data (nested defers, lists, abstract types included) *)
+   yields the base executor's data (nested defers, lists, abstract types included): in the model's order,
+   and in every other order of the same payloads in which the merge can be carried out *)
 Theorem C04_defer_reassembly_partial : forall s d vars root j cs pl rv,
   dexecute_plain s d vars root = DResp j [] cs pl rv ->
   exists j0 cs0 pls rv0,
     dexecute s d vars root = DResp j0 [] cs0 pls rv0 /\
     Forall pl_ok pls /\
-    exists m, reassemble j0 pls = Some m /\ jeq m j.
+    (exists m, reassemble j0 pls = Some m /\ jeq m j) /\
+    (forall pls' m', Permutation pls pls' -> reassemble j0 pls' = Some m' -> jeq m' j).
 Proof. intros s d vars root j cs pl rv. apply reassembly_fuel. Qed.
 Print Assumptions C04_defer_reassembly_partial.
 
@@ -48,7 +53,8 @@ Theorem C04_defer_reassembles_to_erased_spec_partial : forall s d vars root j cs
   exists j0 cs0 pls rv0,
     dexecute s d vars root = DResp j0 [] cs0 pls rv0 /\
     Forall pl_ok pls /\
-    exists m, reassemble j0 pls = Some m /\ jeq m j.
+    (exists m, reassemble j0 pls = Some m /\ jeq m j) /\
+    (forall pls' m', Permutation pls pls' -> reassemble j0 pls' = Some m' -> jeq m' j).
 Proof.
   intros s d vars root j cs pl H. split.
   - apply (C04_defer_base_executor_is_erased_spec _ _ _ _ _ _ _ _ H).
@@ -88,6 +94,17 @@ Theorem C04_defer_nondeferred_occurrence_is_initial : forall dg k fs,
   In (k, fs) dg -> (exists f, In f fs /\ df_du f = []) -> In (k, fs) (fst (plan_of dg [])).
 Proof. exact nondeferred_in_initial. Qed.
 Print Assumptions C04_defer_nondeferred_occurrence_is_initial.
+
+(* ... and is therefore a key of the initial data of its position (unless the runtime type does not define it) *)
+Theorem C04_defer_nondeferred_occurrence_in_initial_data :
+  forall s frags cv f tn obj srcs b dp kvs es cs pls rv st k fs,
+  dexec_sels s frags cv true (S f) tn obj srcs [] b dp = Some ((CVal (JObj kvs), es, cs), pls, rv) ->
+  dcollect_srcs s frags cv tn b dp f srcs cs0 = Some st ->
+  In (k, fs) (c_g st) -> (exists x, In x fs /\ df_du x = []) ->
+  dexec_field s frags cv true f tn obj [] (b + N.of_nat (length (c_new st))) dp fs <> Some XSkip ->
+  In k (map fst kvs).
+Proof. exact nondeferred_in_initial_data. Qed.
+Print Assumptions C04_defer_nondeferred_occurrence_in_initial_data.
 
 (* the plan of one position (initial part + deferred grouped field sets) is a partition of the collected
    response keys with their complete field lists *)
@@ -130,7 +147,9 @@ Example C04_defer_example :
      pl_path p1 = [PKey Ex.sa] /\ pl_path p2 = [PKey Ex.sa; PKey Ex.so] /\
      reassemble j0 [p1; p2]
      = Some (JObj [(Ex.sa, JObj [(Ex.sx, JInt 1); (Ex.sy, JInt 2);
-                                 (Ex.so, JObj [(Ex.sx, JInt 3); (Ex.sy, JInt 4)])])])).
+                                 (Ex.so, JObj [(Ex.sx, JInt 3); (Ex.sy, JInt 4)])])]) /\
+     (* the nested payload before the payload that creates its position: rejected by the oracle *)
+     reassemble j0 [p2; p1] = None).
 Proof.
   split.
   - eexists _, _. vm_compute. reflexivity.
